@@ -238,7 +238,7 @@ func (p *prover) norm1(v ssa.Value) lin {
 			// -1 ≤ r ; r + 1 ≤ len(s)  (r < len(s))
 			t := describe(v)
 			r := linTerm(t)
-			p.extra = append(p.extra, r.add(linConst(1), 1))                           // r + 1 ≥ 0
+			p.extra = append(p.extra, r.add(linConst(1), 1))                                   // r + 1 ≥ 0
 			p.extra = append(p.extra, p.lenOf(x.Call.Args[0]).add(r, -1).add(linConst(1), -1)) // len - r - 1 ≥ 0
 			p.notes["contract: "+n+" returns -1 ≤ r < len(s)"] = true
 			return r
@@ -383,7 +383,7 @@ func (p *prover) wrapSafe(v ssa.Value, depth int) bool {
 			return false // may wrap below zero; never relied upon
 		}
 		l := p.norm(x)
-		limit := linConst(1<<32 - 1).add(l, -1)
+		limit := linConst(1<<32-1).add(l, -1)
 		ok2, _ := p.proveFrom(limit, p.invariantFacts(l))
 		return ok2
 	}
